@@ -104,7 +104,7 @@ def run_ordered_chain(doc: dict) -> dict:
 
 
 def gen_private_branches(rng: random.Random) -> dict:
-    return {"kind": "private_branches", "entry": rng.choice(["pbA", "pbB"]), "order_seed": rng.randrange(1 << 30), "cfg": gen.gen_async_cfg(rng, allow_hold=False)}
+    return {"kind": "private_branches", "entry": rng.choice(["pbA", "pbB"]), "variant": rng.choice(["both", "first_only"]), "order_seed": rng.randrange(1 << 30), "cfg": gen.gen_async_cfg(rng, allow_hold=False)}
 
 
 def run_private_branches(doc: dict) -> dict:
@@ -120,11 +120,18 @@ def run_private_branches(doc: dict) -> dict:
         {"kind": "fn", "name": "pbRA", "params": [{"name": "pbx"}, {"name": "pbka"}], "outs": ["pbra"]},
         {"kind": "fn", "name": "pbRB", "params": [{"name": "pbx"}, {"name": "pbkb"}], "outs": ["pbrb"]},
     ]
+    edges = [["pbg", "pbA"], ["pbg", "pbB"], ["pbA", "pbRA", ["pbx"]], ["pbB", "pbRB", ["pbx"]]]
+    if doc.get("variant") == "first_only":
+        # only the first branch has a declared reader at all; the entry is always the other branch
+        nodes = nodes[:4]
+        edges = edges[:3]
+        doc = dict(doc, entry="pbB")
     order = list(range(len(nodes)))
     random.Random(doc["order_seed"]).shuffle(order)
-    spec = {"name": "top", "nodes": nodes, "order": order, "entrypoints": [doc["entry"]],
-            "explicit_edges": [["pbg", "pbA"], ["pbg", "pbB"], ["pbA", "pbRA", ["pbx"]], ["pbB", "pbRB", ["pbx"]]]}
+    spec = {"name": "top", "nodes": nodes, "order": order, "entrypoints": [doc["entry"]], "explicit_edges": edges}
     mine, other = ("pbRA", "pbRB") if doc["entry"] == "pbA" else ("pbRB", "pbRA")
+    if doc.get("variant") == "first_only":
+        mine = doc["entry"]
     other_key = "pbkb" if doc["entry"] == "pbA" else "pbka"
     viol: list = []
     rts = []
@@ -155,7 +162,7 @@ def run_private_branches(doc: dict) -> dict:
     res["nontrivial"] = True
     res["stats"]["private_branches_cases"] = 1
     res["stats"]["probe_entrypoints_excluded_nodes"] = 1
-    res["shape"] = digest(["private_branches", doc["entry"], order], 8)
+    res["shape"] = digest(["private_branches", doc["entry"], doc.get("variant"), order], 8)
     res["sched"] = "-"
     res["sig"] = res["shape"]
     res["hdigest"] = hist_digest(rts)
